@@ -38,7 +38,8 @@ Record kcase := {
   k_c0 : fstate;                 (* its initial state *)
   k_cacts : list step_id;        (* its (ground, parameterless) actions *)
   k_back : back_table;           (* compiled instance -> original instance | None (merge / auxiliary) *)
-  k_n : nat;                     (* plan length bound for the soundness and the belief-space search *)
+  k_n : nat;                     (* plan length bound of the belief-space search *)
+  k_d : nat;                     (* plan length bound of the soundness check (product exploration), >= k_n *)
   k_m : nat;                     (* number of rounds allowed for closing the compiled state space *)
   k_red : option rpart
 }.
@@ -54,7 +55,7 @@ Definition classical_verdict (K : list gfl) (P : problem) (acts : list step_id) 
             else if existsb is_none (classical_nodes K P acts c0 m) then 3%N else 2%N
   end.
 
-(* bit 0   (1)  soundness violated: some valid compiled plan of length <= n maps back to a non-conformant plan
+(* bit 0   (1)  soundness violated: some valid compiled plan of length <= d maps back to a non-conformant plan
    bit 1   (2)  completeness violated: a conformant plan of length <= n exists, the compiled problem is unsolvable
    bit 2   (4)  outside the model (a key outside the declared ground fluents)
    bit 3   (8)  completeness undecided (conformant plan exists, compiled state space not closed within m rounds)
@@ -66,7 +67,7 @@ Definition classical_verdict (K : list gfl) (P : problem) (acts : list step_id) 
 Definition kcode (c : kcase) : N :=
   let KO := ground_fluents (k_P c) in
   let KC := ground_fluents (k_CP c) in
-  let V := product_nodes KC (k_CP c) KO (k_P c) (k_back c) (k_cacts c) (k_c0 c) (k_inits c) (k_n c) in
+  let V := product_nodes KC (k_CP c) KO (k_P c) (k_back c) (k_cacts c) (k_c0 c) (k_inits c) (k_d c) in
   let guards := keys_in KC (k_c0 c) && forallb (keys_in KO) (k_inits c) in
   let err := negb guards || existsb is_none V in
   let sound := guards && forallb (pgood (k_CP c) (k_P c)) V in
@@ -85,8 +86,8 @@ Lemma kcode_sound_is_sound_check c :
   let KC := ground_fluents (k_CP c) in
   (keys_in KC (k_c0 c) && forallb (keys_in KO) (k_inits c)
    && forallb (pgood (k_CP c) (k_P c))
-        (product_nodes KC (k_CP c) KO (k_P c) (k_back c) (k_cacts c) (k_c0 c) (k_inits c) (k_n c)))
-  = sound_check KC (k_CP c) KO (k_P c) (k_back c) (k_cacts c) (k_c0 c) (k_inits c) (k_n c).
+        (product_nodes KC (k_CP c) KO (k_P c) (k_back c) (k_cacts c) (k_c0 c) (k_inits c) (k_d c)))
+  = sound_check KC (k_CP c) KO (k_P c) (k_back c) (k_cacts c) (k_c0 c) (k_inits c) (k_d c).
 Proof. reflexivity. Qed.
 
 (* ---- witnesses, printed as positions in the instance lists (re-validated by the harness on the real engines) *)
@@ -100,7 +101,7 @@ Definition plan_ids (l : list step_id) (pi : plan) : list N := map (fun st => in
 Definition witness_unsound (c : kcase) : option (list N) :=
   option_map (plan_ids (k_cacts c))
     (find_unsound (ground_fluents (k_CP c)) (k_CP c) (ground_fluents (k_P c)) (k_P c) (k_back c) (k_cacts c)
-       (k_c0 c) (k_inits c) (k_n c)).
+       (k_c0 c) (k_inits c) (k_d c)).
 
 Definition witness_conformant (c : kcase) : option (list N) :=
   match find_conformant (ground_fluents (k_P c)) (k_P c) (k_insts c) (k_inits c) (k_n c) with
